@@ -241,6 +241,84 @@ def historical_job(seed):
     return res
 
 
+def historical_eval_job(seed):
+    """HistoricalModelClient.get_historical_evaluation end to end (local config and historical files in an empty working directory): two
+    historical files that differ only in the results of units that are not yet reporting must give identical estimates"""
+    import json as _json
+
+    import pandas as pd
+
+    from harness import run_impl
+
+    client = run_impl._imp()
+    rng = random.Random(seed)
+    pi = ["nonparametric", "gaussian"][seed % 2]
+    case = gen.gen_election(rng, n_states=1, n_units=rng.randint(40, 60), office="S", unit_type="county")
+    base = case["baseline"]
+    thr = 100
+    n_rep = int(len(base) * 0.6)
+    order = list(range(len(base)))
+    rng.shuffle(order)
+    pev = {base[i]["geographic_unit_fips"]: (100 if k < n_rep else rng.choice([0, 30, 60, 90])) for k, i in enumerate(order)}
+    cur = pd.DataFrame([{"postal_code": b["postal_code"], "geographic_unit_fips": b["geographic_unit_fips"], "percent_expected_vote": pev[b["geographic_unit_fips"]]} for b in base])
+    cur = cur.sample(frac=1.0, random_state=seed % 1000).reset_index(drop=True)          # the feed comes in its own order
+    eid, hid = gen.ELECTION_ID, "2095-11-03_USA_G"
+    wd = os.path.join(core.BUILD, "c10histeval", str(seed))
+    shutil.rmtree(wd, ignore_errors=True)
+    os.makedirs(os.path.join(wd, "data", hid, "S"))
+    os.makedirs(os.path.join(wd, "config"))
+    cfg = gen.make_config(case)
+    cfg[eid][0]["historical_election"] = [hid]
+    with open(os.path.join(wd, "config", f"{eid}.json"), "w") as fh:
+        _json.dump(cfg, fh)
+    with open(os.path.join(wd, "config", f"{hid}.json"), "w") as fh:
+        _json.dump({hid: cfg[eid]}, fh)
+    cwd = os.getcwd()
+    outs = []
+    res = {"seed": seed, "pi": pi}
+    try:
+        os.chdir(wd)
+        for variant in (0, 1):
+            rows = []
+            r2 = random.Random(seed + 5)
+            for b in base:
+                hidden = pev[b["geographic_unit_fips"]] < thr
+                mult = 1.0 + r2.uniform(-0.1, 0.1)
+                alt = r2.choice([0.2, 3.0, 9.0])
+                if variant == 1 and hidden:
+                    mult = alt                                   # only units that are not reporting yet change their historical result
+                r = dict(b)
+                r["results_dem"] = int(b["baseline_dem"] * mult) + (0 if variant == 0 or not hidden else 13)
+                r["results_gop"] = int(b["baseline_gop"] * mult)
+                r["results_turnout"] = r["results_dem"] + r["results_gop"] + 7
+                rows.append(r)
+            pd.DataFrame(rows).to_csv(os.path.join(wd, "data", hid, "S", "data_county.csv"), index=False)
+            hc = client.HistoricalModelClient()
+            out = hc.get_historical_evaluation(cur.copy(), eid, "S", ["turnout", "dem"], [0.7, 0.9], thr, "county", pi_method=pi,
+                                               aggregates=["postal_code", "unit"], features=[], fixed_effects={}, save_output=[],
+                                               model_parameters={"fit_turnout_outlier_model": False, "fit_margin_outlier_model": False})
+            est = out[hid]["estimates"]
+            outs.append({k: v.sort_values(list(v.columns[:2])).to_dict("records") for k, v in est.items()})
+    except Exception as e:  # noqa: BLE001
+        res["exc"] = (type(e).__name__, str(e)[:300])
+        return res
+    finally:
+        os.chdir(cwd)
+        shutil.rmtree(wd, ignore_errors=True)
+    res["same"] = True
+    hidden_ids = {u for u, p_ in pev.items() if p_ < thr}
+    for name in outs[0]:
+        for a, b in zip(outs[0][name], outs[1][name]):
+            for c in a:
+                va, vb = a[c], b[c]
+                if va != vb and not (va != va and vb != vb):
+                    res["same"] = False
+                    res["diff"] = f"table {name}, row {[a[k] for k in list(a)[:2]]}, column {c}: {va} with the first historical file, {vb} when only the historical results of the not yet reporting units {sorted(hidden_ids)[:4]}... change"
+                    return res
+    res["rows"] = sum(len(v) for v in outs[0].values())
+    return res
+
+
 def run(chk):
     ok, rep = chk.proofs()
     chk.assumptions += ["the interior of BootstrapElectionModel.compute_bootstrap_errors (strata distributions, PIT, samplers) is not modelled beyond 'function of the "
@@ -275,6 +353,14 @@ def run(chk):
             chk.violation(f"historical frame depends on results of units below the threshold: {o.get('diff')}", {"kind": "historical", "seed": o["seed"]}, {"kind": "historical-leak"})
         if o["leak"]:
             chk.violation(f"historical results of not-yet-reporting units are not hidden: {o['leak']}", {"kind": "historical", "seed": o["seed"]}, {"kind": "historical-leak"})
+    # the public entry point of the historical evaluation
+    for o in core.pmap(historical_eval_job, [rng.randint(0, 2**30) * 2 + k % 2 for k in range(4 if chk.tier == "quick" else 30)]):
+        chk.count({"historical_evaluation": True, "pi": o.get("pi"), "same": o.get("same")}, nontrivial="same" in o,
+                  sample={"stream": "get_historical_evaluation", "estimator": o.get("pi"), "rows_compared": o.get("rows"), "independent_of_hidden_results": o.get("same")})
+        if "exc" in o:
+            chk.violation(f"get_historical_evaluation failed: {o['exc']}", {"kind": "historical-eval", "seed": o["seed"]}, {"kind": "historical-raises"}, no_input=True)
+        elif not o["same"]:
+            chk.violation(f"historical evaluation depends on hidden results: {o.get('diff')}", {"kind": "historical-eval", "seed": o["seed"]}, {"kind": "historical-leak"})
     if n_ok < max(4, len(outs) // 3):
         chk.violation(f"only {n_ok} of {len(outs)} perturbation pairs completed", {"kind": "coverage", "excs": [o.get('exc') for o in outs if not o['ok']][:4]}, {"kind": "coverage"}, no_input=True)
     if not ok and not [v for v in chk.violations if not v["no_input"]]:
@@ -284,6 +370,10 @@ def run(chk):
 
 def replay(chk, payload):
     r = payload["replay"]
+    if r.get("kind") == "historical-eval":
+        o = historical_eval_job(r["seed"])
+        print(json.dumps(o, indent=1, default=str))
+        return 0 if o.get("same") else 1
     if r["kind"] == "c10":
         o = worker(tuple(r["job"]))
         print(json.dumps({k: o.get(k) for k in ("ok", "exc", "fails", "uid")}, indent=1, default=str))
